@@ -20,11 +20,9 @@ VERIFICATION_FAILURE_PATTERNS = [
     'postcondition not satisfied', 'precondition not satisfied', 'invariant not satisfied',
     'assertion failed', 'possible arithmetic underflow/overflow', 'possible division by zero',
     'decreases not satisfied', 'could not prove termination', 'possible bit shift underflow/overflow',
-    'loop invariant not satisfied', 'index out of bounds', 'possible arithmetic', 'assertion failure',
-    'cannot prove that', 'possible index out of bounds', 'unreachable', 'panic', 'may be out of range',
-    'failed precondition', 'failed this postcondition', 'bit-vector', 'bit_vector', 'nonlinear', 'possible overflow',
-    'constructed value may fail to meet its declared type invariant', 'recommendation not met',
-    'termination', 'failed to establish', 'ensures clause', 'requires clause', 'might not be allowed',
+    'loop invariant not satisfied', 'failed precondition', 'failed this postcondition',
+    'constructed value may fail to meet its declared type invariant',
+    'unable to prove', 'cannot show invariant', 'might fail', 'bit-vector assertion', 'assertion not satisfied',
 ]
 RLIMIT_PATTERNS = ['rlimit', 'resource limit', 'timed out', 'timeout']
 
